@@ -301,9 +301,15 @@ func (s *Stage) Receive(file *sts.Partial, reader io.Reader) (err error) {
 	if _, err = fh.Seek(part.Beg, 0); err != nil {
 		return
 	}
-	_, err = io.Copy(fh, reader)
+	var nCopied int64
+	nCopied, err = io.Copy(fh, reader)
 	fh.Close()
 	if err != nil {
+		return
+	}
+	if nCopied != part.End-part.Beg {
+		err = fmt.Errorf("incomplete part %d:%d of %s: got %d bytes",
+			part.Beg, part.End, file.Name, nCopied)
 		return
 	}
 	verifhook.Point("stage.d.written", path)
